@@ -1,7 +1,7 @@
 CONSTANTS
   Conns = {}
   ReqSet <- SwapReqSet
-  ListSeqs <- SwapHist3
+  ListSeqs <- GenHist3
   Connectors <- MC_Connectors
 INIT Init
 NEXT Next
